@@ -28,7 +28,9 @@ func (d *Descriptor) VerifKey() string {
 
 // OwnerForVerif returns the id of the environment owning the task ("" if none).
 func (t *Task) OwnerForVerif() string {
-	if t == nil || !t.IsLocked() {
+	// ownership as the API reports it: the environment of the role the task is attached to
+	// (IsLocked() additionally wants agent and executor ids, which a failed agent/executor blanks)
+	if t == nil || t.GetParent() == nil {
 		return ""
 	}
 	return t.GetEnvironmentId().String()
